@@ -13,7 +13,33 @@ A_SUB = "A-SUBCLASS: only the term / encoder / adapter classes defined in /repo/
 QUOTED = "nested denotation of quoted triples is not carried by the contracts (completeness, entry-row accounting and LRU accounting are); it is covered by the bounded net only"
 ENCODER = COMMON + [A_OD, A_STR, A_SUB, QUOTED]
 
+BOUNDED_MAIN = "this property is currently decided mainly by the bounded net (labelled bounded, not proof); the contract layer covers only the functions listed under functions_under_contract"
+
 PROPS = {
+    "C02": {"level": "other", "assumptions": COMMON + [BOUNDED_MAIN, "A-RDFLIB: rdflib 7.6.0 term constructors/normalisation, stores and plugin loading are outside the contracts"],
+            "explanation": "bounded: rdflib Graph/Dataset round trips through the plugin for random small graphs x presets x frame sizes x framing x stream classes, compared as sets with rdflib's own normalisation as expectation; proof: the shared encoder contracts (lookup, term level) that the rdflib encoder reuses"},
+    "C04": {"level": "other", "assumptions": COMMON + [BOUNDED_MAIN],
+            "explanation": "proof: reader lookup tables refine the spec tables for every id (LookupDecoder contracts, both directions), options_from_frame; bounded: reference-encoder streams with arbitrary legal producer choices through the parse entry points"},
+    "C06": {"level": "other", "assumptions": COMMON + [BOUNDED_MAIN],
+            "explanation": "proof: type-pair validation contracts; bounded: the whole configuration lattice (3 stream classes x 8 logical types x framing x flows x entry points) through real bytes, incl. rdflib plugin and malformed items"},
+    "C07": {"level": "other", "assumptions": COMMON + [BOUNDED_MAIN],
+            "explanation": "bounded: re-partitioning of real streams at sampled cut vectors with empty frames and metadata; grouped serialisation frame counts"},
+    "C09": {"level": "other", "assumptions": COMMON + [BOUNDED_MAIN, "A-IO: io.BufferedReader.peek may return fewer bytes than asked (documented)"],
+            "explanation": "bounded: every source kind and 11 short-read schedules; options-row length sweep; known finding D5 (short first read)"},
+    "C10": {"level": "other", "assumptions": COMMON + [BOUNDED_MAIN],
+            "explanation": "bounded: every cut offset of small delimited streams, both integrations"},
+    "C11": {"level": "other", "assumptions": COMMON + [BOUNDED_MAIN],
+            "explanation": "bounded: pull-counting input generators (pending rows at every pull, frames handed over before more input) and stalling byte sources after every frame boundary (all physical types)"},
+    "C12": {"level": "other", "assumptions": COMMON + [BOUNDED_MAIN, "threads: CPython memory safety, no hidden shared state inside protobuf/rdflib"],
+            "explanation": "bounded: alone vs interleaved (fresh/shared options) vs alternately advanced parsers vs threads vs hash seeds"},
+    "C14": {"level": "other", "assumptions": COMMON + [BOUNDED_MAIN, "rdflib NamespaceManager behaviour (stock bindings, renaming on clashes) is outside the contracts"],
+            "explanation": "proof: encode_iri contract (declared IRIs go through the same refinement as statement IRIs); bounded: bindings incl. empty prefix / separator-free / non-ASCII with evicting tables, both integrations, on/off comparison, re-serialisation"},
+    "C15": {"level": "other", "assumptions": COMMON + [BOUNDED_MAIN],
+            "explanation": "bounded: the six parse entry points on the same bytes; both flat serialisers byte for byte on corresponding inputs"},
+    "C16": {"level": "other", "assumptions": COMMON + [BOUNDED_MAIN],
+            "explanation": "proof: LookupDecoder contracts are exact (raise iff the spec step is invalid), options_from_frame raises iff pair invalid / name table < 8, table cap; bounded: one violation of every catalogued class at every applicable row, both integrations"},
+    "C17": {"level": "other", "assumptions": COMMON + [BOUNDED_MAIN, "the upb C parser and CPython itself are outside the contracts"],
+            "explanation": "proof: LookupDecoder.__init__ raises before allocating unless 0 <= size <= 4096; bounded: hostile byte strings in a watch-dogged child process"},
     "C03": {"level": "proof", "assumptions": ENCODER + ["stream/flow/generator layer (options row first, frame flushing, graph bracketing) is covered by the bounded net, not yet by contracts"],
             "explanation": "encoder refines the Jelly spec tables: every entry row is exactly a spec_assign that accounts for the table change, every id written resolves by the spec's delta rules to the intended string in the final tables of the statement (under C01's premise), entry rows precede the statement row, quoted triples are complete"},
     "C19": {"level": "proof", "assumptions": ENCODER,
